@@ -373,7 +373,21 @@ func c15Worlds() []c15World {
 	x4 := restRaw("rest-blob-gzip-both", "/v1/blob/f9", true, strings.Repeat("blob-upload.", 100), true, strings.Repeat("blob-download.", 20))
 	w8.history = []c15Req{x1, x2, x3, x4}
 	w8.probes = []c15Req{x1, x2, x3, x4}
-	return []c15World{w1, w2, w3, w4, w5, w6, w7, w8}
+	// world 9: a small limit and messages that fit it in one codec but not in the other: the RPC that
+	// fails on the RE-ENCODED size (the original was within the limit, the new form still fits the
+	// pooled buffer's capacity) must leave the pools as it found them
+	w9 := c15World{name: "limit 200, messages that outgrow it only when re-encoded (target gRPC/proto, no compression)", cfg: world.Config{Protocols: []vanguard.Protocol{vanguard.ProtocolGRPC}, Codecs: []string{"proto"}, NoCompress: true, MaxMsg: 200}}
+	grows := `{"name":"g","nums":[` + strings.TrimSuffix(strings.Repeat("7,", 95), ",") + `]}` // ~100 bytes packed, ~200 characters of JSON, more with the other fields rendered
+	tiny := MkMsg(`{"name":"t"}`)
+	h1 := mk("response-grows-json-web", wire.GRPCWeb, "Unary", "json", "", echo(grows), nil, tiny)
+	h2 := mk("response-grows-json-cunary", wire.ConnectUnary, "Unary", "json", "", echo(grows), nil, tiny)
+	h3 := mk("response-grows-json-cstream", wire.ConnectStream, "SStream", "json", "", echo(`{"name":"first"}`, grows, `{"name":"never"}`), nil, tiny)
+	s1 := mk("small-json-web", wire.GRPCWeb, "Unary", "json", "", echo(`{"name":"s1","extraText":"`+strings.Repeat("s", 60)+`"}`), nil, tiny)
+	s2 := mk("small-json-cunary", wire.ConnectUnary, "Unary", "json", "", echo(`{"name":"s2"}`), nil, MkMsg(`{"name":"q","extraText":"`+strings.Repeat("q", 50)+`"}`))
+	s3 := mk("small-json-cget", wire.ConnectGet, "Pure", "json", "", echo(`{"name":"s3"}`), nil, tiny)
+	w9.history = []c15Req{h1, h2, h3, s1, s2}
+	w9.probes = []c15Req{s1, s2, s3, h1}
+	return []c15World{w1, w2, w3, w4, w5, w6, w7, w8, w9}
 }
 
 type protoMessage = proto.Message
